@@ -195,6 +195,9 @@ def sigma_filter(filename, region, step_size, box_size, shape, domask,
     header = fits.getheader(filename)
     if 'BSCALE' in header:
         data *= header['BSCALE']
+    # same for BZERO
+    if 'BZERO' in header:
+        data += header['BZERO']
 
     # row_len = shape[1]
 
@@ -504,23 +507,27 @@ def filter_image(im_name, out_base, step_size=None, box_size=None,
         bkg_out = '_'.join([os.path.expanduser(out_base), 'bkg.fits'])
         rms_out = '_'.join([os.path.expanduser(out_base), 'rms.fits'])
 
-        # Test for BSCALE and scale back if needed before we write to a file
+        # Test for BSCALE/BZERO and scale back if needed before we write to
+        # a file (the header, which is copied to the output, still has them)
         bscale = 1.0
         if 'BSCALE' in header:
             bscale = header['BSCALE']
+        bzero = 0.0
+        if 'BZERO' in header:
+            bzero = header['BZERO']
 
         # compress
         if compressed:
-            hdu = fits.PrimaryHDU(bkg/bscale)
+            hdu = fits.PrimaryHDU((bkg-bzero)/bscale)
             hdu.header = copy.deepcopy(header)
             hdulist = fits.HDUList([hdu])
             compress(hdulist, step_size[0], bkg_out)
             hdulist[0].header = copy.deepcopy(header)
-            hdulist[0].data = rms/bscale
+            hdulist[0].data = (rms-bzero)/bscale
             compress(hdulist, step_size[0], rms_out)
         else:
-            write_fits(bkg/bscale, header, bkg_out)
-            write_fits(rms/bscale, header, rms_out)
+            write_fits((bkg-bzero)/bscale, header, bkg_out)
+            write_fits((rms-bzero)/bscale, header, rms_out)
 
     return bkg, rms
 
